@@ -337,6 +337,13 @@ func genMergeObs(r *rand.Rand, i int) Scenario {
 		}
 		inputs = append(inputs, h)
 	}
+	if i%5 == 4 {
+		// the same segment object listed twice (with deletions of its own each time)
+		inputs = append(inputs, inputs[r.Intn(len(inputs))])
+		if i%10 == 9 {
+			inputs[len(inputs)-1], inputs[0] = inputs[0], inputs[len(inputs)-1]
+		}
+	}
 	drops := make([]DropSpec, len(inputs))
 	for j, h := range inputs {
 		drops[j] = randDrops(r, counts[h])
